@@ -257,10 +257,11 @@ def run(chk, ctx):
            '2^16, so the signed/unsigned reading cannot matter' %
            (sorted(flag_words),), site=site_u)
     chk.floor('C02.U', 14, 'properties on the decode side')
-    # ---- composed round trip (thorough tier: the 14 optional fields make
-    # the rewriting walk expensive)
-    if ctx.tier == 'thorough' or os.environ.get('VERIF_C02R') == '1':
+    # ---- composed round trip
+    try:
         composed(chk, ctx, e, o, ob, props, slots, data, site_u)
+    except AnalysisError as err:
+        chk.undecide('C02.R', 'content header', str(err))
     # fresh defaults
     hci = prog.cls('header.ContentHeader')
     it2 = ctx.interp()
